@@ -12,6 +12,12 @@ that rules are invariant under the commonest behaviour-preserving rewrites:
       expanded the same way (max(f(m) for m in (a, b)) -> max(f(a), f(b)); sum -> f(a) + f(b); any/all -> or/and)
   N8  `x = 0; for m in C: [if c:] x += f(m)`  ->  `x = sum(f(m) for m in C [if c])`   (adjacent statements only)
   N9  `for m in C: if [not] p(m): return False|True` followed by `return True|False`  ->  `return all(...)` / `return any(...)`
+  N10 `x = a if c else b` (the whole right-hand side, one plain target)  ->  `if c: x = a  else: x = b`;
+      likewise `return a if c else b`  ->  `if c: return a` / `return b`
+  N11 `for x in xs: a, b = x; REST` with x used nowhere else in the function  ->  `for a, b in xs: REST`
+  N12 `a, b = x, y` (targets plain names/attribute paths none of which the right-hand sides mention)  ->  `a = x; b = y`
+  N13 statement `d.update(k=v, ...)` (keywords only)  ->  `d["k"] = v; ...`;  statement `d.setdefault("k", v)`  ->
+      `if "k" not in d: d["k"] = v`   (d a plain name or attribute path)
   N6  `except T as e:` binding is kept, but the py2 idiom `e = sys.exc_info()[1]` as the first statement of a handler
       is rewritten to the binding form (`except T as e:`)
 
@@ -36,6 +42,15 @@ def _is_path(e):
     while isinstance(e, ast.Attribute):
         e = e.value
     return isinstance(e, ast.Name)
+
+
+def _strip_ctx(e):
+    """a copy of a name/attribute path with Load contexts (so that a store target and a read compare equal)"""
+    if isinstance(e, ast.Attribute):
+        return ast.Attribute(value=_strip_ctx(e.value), attr=e.attr, ctx=ast.Load())
+    if isinstance(e, ast.Name):
+        return ast.Name(id=e.id, ctx=ast.Load())
+    return e
 
 
 class _SubstName(ast.NodeTransformer):
@@ -133,6 +148,86 @@ class Desugar(ast.NodeTransformer):
                     n.body = n.body[1:] or [ast.copy_location(ast.Pass(), st)]
         return n
 
+    def _dict_calls(self, stmts):
+        # N13
+        out = []
+        for st in stmts:
+            c = st.value if isinstance(st, ast.Expr) and isinstance(st.value, ast.Call) else None
+            if c is not None and isinstance(c.func, ast.Attribute) and _is_path(c.func.value):
+                d = c.func.value
+                if c.func.attr == "update" and not c.args and c.keywords and all(k.arg is not None for k in c.keywords):
+                    for k in c.keywords:
+                        new = ast.copy_location(ast.Assign(targets=[ast.Subscript(value=copy.deepcopy(d), slice=ast.Constant(value=k.arg),
+                                                                                  ctx=ast.Store())], value=k.value), st)
+                        ast.fix_missing_locations(new)
+                        out.append(new)
+                    continue
+                if c.func.attr == "setdefault" and len(c.args) == 2 and not c.keywords and isinstance(c.args[0], ast.Constant):
+                    asg = ast.Assign(targets=[ast.Subscript(value=copy.deepcopy(d), slice=c.args[0], ctx=ast.Store())], value=c.args[1])
+                    test = ast.Compare(left=copy.deepcopy(c.args[0]), ops=[ast.NotIn()], comparators=[copy.deepcopy(d)])
+                    new = ast.copy_location(ast.If(test=test, body=[asg], orelse=[]), st)
+                    ast.fix_missing_locations(new)
+                    out.append(new)
+                    continue
+            out.append(st)
+        return out
+
+    def _split_parallel_assignments(self, stmts):
+        # N12
+        out = []
+        for st in stmts:
+            if isinstance(st, ast.Assign) and len(st.targets) == 1 and isinstance(st.targets[0], (ast.Tuple, ast.List)) \
+                    and isinstance(st.value, (ast.Tuple, ast.List)) and len(st.value.elts) == len(st.targets[0].elts) \
+                    and all(_is_path(t) for t in st.targets[0].elts) \
+                    and not any(isinstance(v, ast.Starred) for v in st.value.elts):
+                tnames = set()
+                tpaths = set()
+                for t in st.targets[0].elts:
+                    if isinstance(t, ast.Name):
+                        tnames.add(t.id)
+                    else:
+                        tpaths.add(ast.dump(_strip_ctx(t)))
+                clash = False
+                for v in st.value.elts:
+                    for x in ast.walk(v):
+                        if isinstance(x, ast.Name) and x.id in tnames:
+                            clash = True
+                        if isinstance(x, ast.Attribute) and ast.dump(_strip_ctx(x)) in tpaths:
+                            clash = True
+                        if isinstance(x, (ast.Call, ast.Yield, ast.YieldFrom, ast.Await)) and tpaths:
+                            clash = True   # a call could read the attribute being stored
+                if not clash and len(tnames) + len(tpaths) == len(st.targets[0].elts):
+                    for t, v in zip(st.targets[0].elts, st.value.elts):
+                        new = ast.copy_location(ast.Assign(targets=[t], value=v), st)
+                        ast.fix_missing_locations(new)
+                        out.append(new)
+                    continue
+            out.append(st)
+        return out
+
+    def _ifexp_statements(self, stmts):
+        out = []
+        for st in stmts:
+            if isinstance(st, ast.Assign) and len(st.targets) == 1 and isinstance(st.targets[0], (ast.Name, ast.Attribute)) \
+                    and isinstance(st.value, ast.IfExp):
+                v = st.value
+                a = ast.copy_location(ast.Assign(targets=[copy.deepcopy(st.targets[0])], value=v.body), st)
+                b = ast.copy_location(ast.Assign(targets=[copy.deepcopy(st.targets[0])], value=v.orelse), st)
+                new = ast.copy_location(ast.If(test=v.test, body=[a], orelse=[b]), st)
+                ast.fix_missing_locations(new)
+                out.append(new)
+            elif isinstance(st, ast.Return) and isinstance(st.value, ast.IfExp):
+                v = st.value
+                a = ast.copy_location(ast.Return(value=v.body), st)
+                b = ast.copy_location(ast.Return(value=v.orelse), st)
+                new = ast.copy_location(ast.If(test=v.test, body=[a], orelse=[]), st)
+                ast.fix_missing_locations(new)
+                out.append(new)
+                out.append(b)
+            else:
+                out.append(st)
+        return out
+
     def _loops_to_builtins(self, stmts):
         out = []
         i = 0
@@ -193,6 +288,9 @@ class Desugar(ast.NodeTransformer):
             r = self.visit(s)
             visited.extend(r if isinstance(r, list) else [r])
         visited = self._loops_to_builtins(visited)
+        visited = self._split_parallel_assignments(visited)
+        visited = self._dict_calls(visited)
+        visited = self._ifexp_statements(visited)
         for s in visited:
             if isinstance(s, ast.If):
                 # N2
@@ -223,5 +321,25 @@ class Desugar(ast.NodeTransformer):
         return node
 
 
+def _unpack_loop_targets(tree):
+    """N11: `for x in xs: a, b = x; ...` with x used nowhere else in the function -> `for a, b in xs: ...`"""
+    for fn in ast.walk(tree):
+        if not isinstance(fn, (ast.FunctionDef, ast.AsyncFunctionDef)):
+            continue
+        uses = {}
+        for n in ast.walk(fn):
+            if isinstance(n, ast.Name):
+                uses[n.id] = uses.get(n.id, 0) + 1
+        for lp in ast.walk(fn):
+            if isinstance(lp, ast.For) and isinstance(lp.target, ast.Name) and uses.get(lp.target.id) == 2 and len(lp.body) > 1:
+                st = lp.body[0]
+                if isinstance(st, ast.Assign) and len(st.targets) == 1 and isinstance(st.targets[0], ast.Tuple) \
+                        and all(isinstance(e, ast.Name) for e in st.targets[0].elts) \
+                        and isinstance(st.value, ast.Name) and st.value.id == lp.target.id:
+                    lp.target = st.targets[0]
+                    lp.body = lp.body[1:]
+    return tree
+
+
 def desugar(tree):
-    return Desugar().visit(tree)
+    return _unpack_loop_targets(Desugar().visit(tree))
